@@ -2,11 +2,14 @@
    Statements only; proofs are in Cao.CompilerResolve, Cao.ResolveProofs (the four lookup rules),
    Cao.ResolveTree (front end = tree), Cao.CompilerCalls (module level), Cao.CompilerLabels (labels),
    Cao.C08Examples.  The specification is ResolveSpec.v (module tree level, independent of the compiler
-   model); the run-time half (CallFunction runs the code at the label of the pointer's handle, parameter
-   binding, caller locals, return value) is checked by the C08 correspondence stream on the real Vm. *)
+   model).  The run-time half (CallFunction pushes a frame and runs the code at the label of the pointer's
+   handle, parameter binding, Return) is proved on the VM model in Cao.VmCallProofs and linked to the
+   compile-time half in Cao.VmCallLink (section "run-time half" at the end of this file); the C08
+   correspondence stream checks the same on the real Vm. *)
 From Coq Require Import List NArith ZArith.
 From Cao Require Import ListUtil Bits CardAst Bytecode Compiler StdlibGen ResolveSpec CompilerResolve ResolveProofs
-  ResolveTree CompilerProofs CompilerLabels CompilerCalls C08Examples.
+  ResolveTree CompilerProofs CompilerLabels CompilerCalls C08Examples C15Link.
+From Cao Require Stacks Vm VmProofs VmUpvalueProofs C04VmProofs C01SimVm VmCallProofs VmCallLink.
 Import ListNotations.
 
 (* ---- resolution never panics or diverges; its result is a declared function ---- *)
@@ -352,3 +355,309 @@ Theorem C08_module_import_through_super_repaired :
                (match decode (p_bytecode B) with Some l => map snd l | None => [] end).
 Proof. exact n_c08_2_repaired. Qed.
 Print Assumptions C08_module_import_through_super_repaired.
+
+(* ================================================================== *)
+(* ---- run-time half: CallFunction, Return, parameters (VM model) ---- *)
+(* ================================================================== *)
+(* Vocabulary: VmProofs.stack_of s = the live values of the value stack, bottom first; VmProofs.stack_ok s =
+   its invariant (count < capacity); C04VmProofs.opcode_at P ip = the byte at ip; C01SimVm.code_at P ip i = the
+   encoding of instruction i lies at ip; VmUpvalueProofs.vm_ok / open_list = the invariant and the contents of
+   the open-upvalue list (C06).  Vm.step F bld P reenter ip0 s = one dispatch at address ip0. *)
+
+(* C08_vm_call_function: the exact outcome of CallFunction (opcode 11) at ip0 when the popped callee is a function
+   object OFun h ar or a closure OClo h ar ups at heap address a, with n values left on the stack:
+   - the callee value is popped (its slot is overwritten with nil): state s1;
+   - the caller's frame gets dst := ip0 + 1 (the instruction after the call) BEFORE any check;
+   - fewer than ar values on the WHOLE stack (not: above the caller's frame offset) -> MissingArgument;
+   - 256 frames already -> CallStackOverflow;
+   - otherwise the frame {src = ip0, dst = ip0 + 1, offset = n - ar, closure} is pushed and execution continues
+     at labels[h]; no label for h -> ProcedureNotFound h, raised with the new frame already pushed (this is what
+     a static call of `main` runs into: N-C08-3). *)
+Theorem C08_vm_call_function :
+  forall F bld P reenter ip0 s stk a (is_clo : bool) h ar ups top rest,
+    C04VmProofs.opcode_at P ip0 = 11%N ->
+    VmProofs.stack_ok s -> VmProofs.stack_of s = stk ++ [Vm.VObj a] ->
+    Vm.hget (Vm.st_heap s) a = Some (if is_clo then Vm.OClo h ar ups else Vm.OFun h ar) ->
+    Vm.st_calls s = top :: rest ->
+    let n := length stk in
+    let s1 := Vm.set_stack s {| Stacks.vcount := n; Stacks.vdata := upd (Stacks.vdata (Vm.st_stack s)) n Vm.VNil |} in
+    let caller := Vm.mkFrame (Vm.fr_src top) (ip0 + 1) (Vm.fr_off top) (Vm.fr_clo top) in
+    let callee := Vm.mkFrame ip0 (ip0 + 1) (N.of_nat n - ar) (if is_clo then Some a else None) in
+    VmProofs.stack_ok s1 /\ VmProofs.stack_of s1 = stk /\
+    Vm.step F bld P reenter ip0 s =
+      if (N.of_nat n <? ar)%N then Vm.SErr Vm.EMissingArgument (ip0 + 1) (Vm.set_calls s1 (caller :: rest))
+      else if (Vm.call_stack_size <=? S (length rest))%nat
+           then Vm.SErr Vm.ECallStackOverflow (ip0 + 1) (Vm.set_calls s1 (caller :: rest))
+      else match Vm.assoc h (Vm.p_labels P) with
+           | Some pos => Vm.SNext pos (Vm.set_calls s1 (callee :: caller :: rest))
+           | None => Vm.SErr (Vm.EProcedureNotFound h) (ip0 + 1) (Vm.set_calls s1 (callee :: caller :: rest))
+           end.
+Proof. exact VmCallProofs.vm_call_function. Qed.
+Print Assumptions C08_vm_call_function.
+
+(* C08_vm_return: Return (opcode 22) in a frame fr above the caller's frame prev, the value to return on top of
+   the stack above fr's offset: the open upvalues of slots >= offset are closed (each keeps the value its slot
+   holds now; C06_vm_return_closes), the frame is popped, the stack is truncated to the frame's offset, the
+   returned value is pushed, execution continues at prev's dst.  x2 = the state after closing the upvalues
+   (same stack, frames prev :: rest), x' = the result state. *)
+Theorem C08_vm_return :
+  forall F bld P reenter ip0 x fr prev rest l,
+    C04VmProofs.opcode_at P ip0 = 22%N -> Vm.st_calls x = fr :: prev :: rest ->
+    VmUpvalueProofs.vm_ok x -> VmUpvalueProofs.open_list x l ->
+    let off := N.to_nat (Vm.fr_off fr) in
+    let v := last (VmProofs.stack_of x) Vm.VNil in
+    (off < length (VmProofs.stack_of x))%nat ->
+    exists x2,
+      let x' := VmCallProofs.pushed (VmCallProofs.truncated x2 off) v in
+      Vm.close_upvalues_from off (Vm.set_calls x (prev :: rest)) = Vm.ClOk x2 /\
+      Vm.step F bld P reenter ip0 x = Vm.SNext (Vm.fr_dst prev) x' /\
+      VmProofs.stack_ok x' /\
+      VmProofs.stack_of x' = firstn off (VmProofs.stack_of x) ++ [v] /\
+      Vm.st_calls x' = prev :: rest /\
+      Vm.st_globals x' = Vm.st_globals x /\
+      VmUpvalueProofs.vm_ok x' /\
+      VmUpvalueProofs.open_list x' (VmUpvalueProofs.kept_by off l) /\
+      Vm.st_stack x2 = Vm.st_stack x /\
+      Vm.st_heap x' = Vm.st_heap x2 /\
+      (forall a loc, In (a, loc) l -> (off <= loc)%nat ->
+         exists nx, Vm.hget (Vm.st_heap x2) a = Some (Vm.OUp (Vm.mkUp None (Vm.sraw_get x loc) nx))) /\
+      (forall a, (forall loc, In (a, loc) l -> (loc < off)%nat) -> Vm.hget (Vm.st_heap x2) a = Vm.hget (Vm.st_heap x) a).
+Proof. exact VmCallProofs.vm_return. Qed.
+Print Assumptions C08_vm_return.
+
+(* ... from a frame pushed by C08_vm_call_function at ip0 (n values on the stack at the call, arity ar): execution
+   continues at ip0 + 1 in the caller's frame (offset and closure as before the call); everything from slot
+   n - ar upwards - the arguments included - is replaced by the returned value *)
+Theorem C08_vm_return_to_caller :
+  forall F bld P reenter ip0 ipr x n ar clo top rest l,
+    C04VmProofs.opcode_at P ipr = 22%N ->
+    Vm.st_calls x = Vm.mkFrame ip0 (ip0 + 1) (N.of_nat n - ar) clo
+                    :: Vm.mkFrame (Vm.fr_src top) (ip0 + 1) (Vm.fr_off top) (Vm.fr_clo top) :: rest ->
+    VmUpvalueProofs.vm_ok x -> VmUpvalueProofs.open_list x l ->
+    let off := (n - N.to_nat ar)%nat in
+    (off < length (VmProofs.stack_of x))%nat ->
+    exists x',
+      Vm.step F bld P reenter ipr x = Vm.SNext (ip0 + 1) x' /\
+      VmProofs.stack_ok x' /\
+      VmProofs.stack_of x' = firstn off (VmProofs.stack_of x) ++ [last (VmProofs.stack_of x) Vm.VNil] /\
+      Vm.st_calls x' = Vm.mkFrame (Vm.fr_src top) (ip0 + 1) (Vm.fr_off top) (Vm.fr_clo top) :: rest /\
+      Vm.st_globals x' = Vm.st_globals x /\
+      VmUpvalueProofs.vm_ok x' /\ VmUpvalueProofs.open_list x' (VmUpvalueProofs.kept_by off l).
+Proof. exact VmCallProofs.vm_return_to_caller. Qed.
+Print Assumptions C08_vm_return_to_caller.
+
+(* C08_vm_params_are_locals: a call of arity ar with the values args (pushed first to last) above low, at least ar
+   of them.  The callee's frame begins d = |args| - ar values into args (surplus leading arguments stay below the
+   frame: they belong to the caller's part of the stack and are still there after Return).  In every state x in
+   which that frame is the top frame and the stack still begins with low ++ args: ReadLocalVar j (j < ar) pushes
+   args[d + j], SetLocalVar j overwrites args[d + j]. *)
+Theorem C08_vm_params_are_locals :
+  forall F bld P reenter ip0 s low args a (is_clo : bool) h ar ups top rest pos,
+    C04VmProofs.opcode_at P ip0 = 11%N -> VmProofs.stack_ok s ->
+    VmProofs.stack_of s = (low ++ args) ++ [Vm.VObj a] ->
+    Vm.hget (Vm.st_heap s) a = Some (if is_clo then Vm.OClo h ar ups else Vm.OFun h ar) ->
+    Vm.st_calls s = top :: rest ->
+    (N.to_nat ar <= length args)%nat -> (S (length rest) < Vm.call_stack_size)%nat ->
+    Vm.assoc h (Vm.p_labels P) = Some pos ->
+    let fr := Vm.mkFrame ip0 (ip0 + 1) (N.of_nat (length (low ++ args)) - ar) (if is_clo then Some a else None) in
+    let s2 := Vm.set_calls (VmCallProofs.popped s (length (low ++ args)))
+                (fr :: Vm.mkFrame (Vm.fr_src top) (ip0 + 1) (Vm.fr_off top) (Vm.fr_clo top) :: rest) in
+    let d := (length args - N.to_nat ar)%nat in
+    Vm.step F bld P reenter ip0 s = Vm.SNext pos s2 /\ VmProofs.stack_ok s2 /\ VmProofs.stack_of s2 = low ++ args /\
+    forall x cs tmp j ip,
+      Vm.st_calls x = fr :: cs -> VmProofs.stack_ok x -> (j < N.to_nat ar)%nat ->
+      Vm.op_u32 P (ip + 1) = Some (N.of_nat j) ->
+      (C04VmProofs.opcode_at P ip = 20%N -> VmProofs.stack_of x = low ++ args ++ tmp ->
+       (S (length (VmProofs.stack_of x)) < VmUpvalueProofs.cap x)%nat ->
+         Vm.step F bld P reenter ip x = Vm.SNext (ip + 1 + 4) (VmCallProofs.pushed x (nth (d + j) args Vm.VNil)) /\
+         VmProofs.stack_of (VmCallProofs.pushed x (nth (d + j) args Vm.VNil))
+           = low ++ args ++ tmp ++ [nth (d + j) args Vm.VNil]) /\
+      (C04VmProofs.opcode_at P ip = 19%N -> forall v, VmProofs.stack_of x = (low ++ args ++ tmp) ++ [v] ->
+         exists x', Vm.step F bld P reenter ip x = Vm.SNext (ip + 1 + 4) x' /\ VmProofs.stack_ok x' /\
+                    VmProofs.stack_of x' = low ++ upd args (d + j) v ++ tmp /\ Vm.st_calls x' = Vm.st_calls x).
+Proof. exact VmCallProofs.vm_params_are_locals. Qed.
+Print Assumptions C08_vm_params_are_locals.
+
+(* C08_param_binding: "declared parameter m receives the (m+1)-th argument FROM THE END".
+   Compiler side: process_function f begins with add_locals (rev (fi_args f)); run in a state c0 whose innermost
+   locals list is empty, it makes declared parameter m of n (names pairwise distinct; add_locals rejects empty
+   names and more than 255 locals) local n - 1 - m: resolve_var answers VLocal (n - 1 - m), ReadVar of the name
+   is compiled to ReadLocalVar (n - 1 - m); the arity the jump table / FunctionPointer carry is n.
+   VM side: the call of a function object of arity n with k >= n values vals on top of low: ReadLocalVar (n-1-m),
+   wherever it lies, executed in the callee's frame while the stack begins with low ++ vals, pushes vals[k-1-m].
+   (That the locals list IS empty where compile_other / a closure body starts - it is [[]] initially and each
+   scope_end pops what the function declared - is not proved here.) *)
+Theorem C08_param_binding :
+  forall (f : function_ir) c0 c1 m,
+    cs_locals c0 <> [] -> hd [] (cs_locals c0) = [] -> NoDup (fi_args f) ->
+    add_locals (rev (fi_args f)) c0 = ROk tt c1 -> (m < length (fi_args f))%nat ->
+    let n := length (fi_args f) in
+    let p := nth m (fi_args f) [] in
+    let j := N.of_nat (n - 1 - m) in
+    (N.of_nat n mod two32 = N.of_nat n)%N /\
+    resolve_var p c1 = ROk (VLocal j) c1 /\
+    (~ In c_dot p -> read_var_card p c1 = push_instr (IReadLocalVar j) c1) /\
+    forall F bld P reenter ip0 s low vals a (is_clo : bool) h ups top rest pos,
+      C04VmProofs.opcode_at P ip0 = 11%N -> VmProofs.stack_ok s ->
+      VmProofs.stack_of s = (low ++ vals) ++ [Vm.VObj a] ->
+      Vm.hget (Vm.st_heap s) a = Some (if is_clo then Vm.OClo h (N.of_nat n) ups else Vm.OFun h (N.of_nat n)) ->
+      Vm.st_calls s = top :: rest ->
+      (n <= length vals)%nat -> (S (length rest) < Vm.call_stack_size)%nat -> Vm.assoc h (Vm.p_labels P) = Some pos ->
+      let fr := Vm.mkFrame ip0 (ip0 + 1) (N.of_nat (length (low ++ vals)) - N.of_nat n) (if is_clo then Some a else None) in
+      Vm.step F bld P reenter ip0 s =
+        Vm.SNext pos (Vm.set_calls (VmCallProofs.popped s (length (low ++ vals)))
+                        (fr :: Vm.mkFrame (Vm.fr_src top) (ip0 + 1) (Vm.fr_off top) (Vm.fr_clo top) :: rest)) /\
+      forall x cs tmp ip,
+        Vm.st_calls x = fr :: cs -> VmProofs.stack_ok x -> VmProofs.stack_of x = low ++ vals ++ tmp ->
+        (S (length (VmProofs.stack_of x)) < VmUpvalueProofs.cap x)%nat ->
+        C01SimVm.code_at P ip (IReadLocalVar j) ->
+        Vm.step F bld P reenter ip x =
+          Vm.SNext (ip + 5) (VmCallProofs.pushed x (nth (length vals - 1 - m) vals Vm.VNil)).
+Proof. exact VmCallLink.param_binding. Qed.
+Print Assumptions C08_param_binding.
+
+(* C08_call_executes_designated_body: compile-time and run-time halves together.  In a compiled module, wherever
+   FunctionPointer h ar is immediately followed by CallFunction (this is how process_card compiles a Call card,
+   and a DynamicCall of a Function card):
+   (i)   the FunctionPointer is, in program order, the compilation of a reference to `name` made from a function
+         st of the tree, the specification resolves `name` from st's module with st's imports to the function at
+         position pos with arn parameters, h = Handle(pos), ar = arn;
+   (ii)  the two dispatches, from any state with room for one push: the function object is allocated and pushed,
+         CallFunction pops it, and the outcome is C08_vm_call_function's for handle h and arity ar on the same
+         value stack as before the pair (VmCallProofs.call_result is the case analysis of that theorem);
+   (iii) if the target is not `main` and the label keys are distinct: labels[h] is the first byte of the code
+         compile_other produced for the IR function f of the designated tree function tgt (ir_of: same name,
+         parameters, cards, module path, imports), so with at least ar values on the stack and a free call frame
+         the CallFunction continues exactly there, in a new frame {src = address of the CallFunction, dst = the
+         next instruction, offset = height - ar}.
+   Not covered: that every Call card yields such an adjacent pair IN THE RETURNED PROGRAM (C08_call_card_emits_pair
+   below: process_card of a Call card appends the two next to each other; that the rest of the compilation only
+   prepends and patches jump operands is not proved in this form - C08_call_resolves has the pair adjacent in
+   the call skeleton), and a callee value that reaches CallFunction through other instructions (DynamicCall of
+   an expression): there C08_vm_call_function applies to whatever function object is popped. *)
+Theorem C08_call_executes_designated_body :
+  forall F bld reenter M o B,
+    compile M o = COk B ->
+    module_names_dotfree (with_std std_module M) = true ->
+    let root := with_std std_module M in
+    let P := to_vm B in
+    exists is mi,
+      p_bytecode B = encode is /\ main_index (m_functions M) 0 = Some mi /\
+      forall a b h ar, is = a ++ IFunctionPointer h ar :: ICallFunction :: b ->
+        let ip := CompilerWf.bytes a in
+        exists st name pos arn,
+          nth_error (flat_map site_items (swap0 (tree_functions root []) mi)) (length (filter is_call_instr a))
+            = Some (st, CPtr name) /\
+          site_target root st name = Some (pos, arn) /\
+          h = handle_from_u64 (N.of_nat pos) /\ ar = (N.of_nat arn mod two32)%N /\
+          (forall s top rest,
+             VmProofs.stack_ok s -> (S (length (VmProofs.stack_of s)) < VmUpvalueProofs.cap s)%nat ->
+             Vm.st_calls s = top :: rest ->
+             let n := length (VmProofs.stack_of s) in
+             let fa := N.of_nat (length (Vm.st_heap s)) in
+             let s1 := VmCallProofs.pushed (Vm.set_heap s (Vm.st_heap s ++ [Vm.OFun h ar])) (Vm.VObj fa) in
+             let s2 := VmCallProofs.popped s1 n in
+             Vm.step F bld P reenter ip s = Vm.SNext (ip + 9) s1 /\
+             Vm.step F bld P reenter (ip + 9) s1 = VmCallProofs.call_result P (ip + 9) s2 n h ar None top rest /\
+             VmProofs.stack_ok s2 /\ VmProofs.stack_of s2 = VmProofs.stack_of s) /\
+          (pos <> mi -> label_keys_distinct_module M (o_recursion_limit o) = true ->
+           exists fid tgt f before body rest',
+             spec_resolve root (fs_path st) (fs_imports st) name = SFound fid /\
+             nth_error (tree_functions root []) pos = Some tgt /\
+             fs_path tgt = fst fid /\ fs_name tgt = snd fid /\ function_at root fid = Some (fs_fn tgt) /\
+             ir_of (N.of_nat pos) tgt f /\
+             p_bytecode B = encode before ++ encode body ++ encode rest' /\
+             (exists c1 c2, compile_other f c1 = ROk tt c2 /\ rev (cs_code c1) = before /\
+                            rev (cs_code c2) = before ++ body) /\
+             Vm.assoc h (Vm.p_labels P) = Some (N.of_nat (length (encode before))) /\
+             forall s top rest,
+               VmProofs.stack_ok s -> (S (length (VmProofs.stack_of s)) < VmUpvalueProofs.cap s)%nat ->
+               Vm.st_calls s = top :: rest ->
+               (ar <= N.of_nat (length (VmProofs.stack_of s)))%N -> (S (length rest) < Vm.call_stack_size)%nat ->
+               let n := length (VmProofs.stack_of s) in
+               let fa := N.of_nat (length (Vm.st_heap s)) in
+               let s1 := VmCallProofs.pushed (Vm.set_heap s (Vm.st_heap s ++ [Vm.OFun h ar])) (Vm.VObj fa) in
+               Vm.step F bld P reenter (ip + 9) s1 =
+                 Vm.SNext (N.of_nat (length (encode before)))
+                   (Vm.set_calls (VmCallProofs.popped s1 n)
+                      (Vm.mkFrame (ip + 9) (ip + 9 + 1) (N.of_nat n - ar) None
+                       :: Vm.mkFrame (Vm.fr_src top) (ip + 9 + 1) (Vm.fr_off top) (Vm.fr_clo top) :: rest))).
+Proof. exact VmCallLink.call_executes_designated_body. Qed.
+Print Assumptions C08_call_executes_designated_body.
+
+(* how a Call card ends: FunctionPointer (what resolve_function answers for the name after the arguments were
+   compiled) and CallFunction are appended next to each other *)
+Theorem C08_call_card_emits_pair :
+  forall name args s s',
+    process_card (CCall name args) s = ROk tt s' ->
+    exists s0 m,
+      resolve_function name s0 = ROk m s0 /\
+      cs_code s' = ICallFunction :: IFunctionPointer (fm_handle m) (fm_arity m) :: cs_code s0 /\
+      cs_pc s' = (cs_pc s0 + 9 + 1)%N.
+Proof. exact VmCallLink.call_card_emits_pair. Qed.
+Print Assumptions C08_call_card_emits_pair.
+
+(* ---- examples: Compiler.compile, then Vm.run (2000 instructions) from the fresh state, for every float
+   instance and both build profiles; the triple is (outcome, the globals ga gb r gx, the live stack at the end) ---- *)
+(* f(a, b) = [ga := a; gb := b; return a - b];  main = [x := 7; r := f(1, 2); gx := x]:
+   a = 2 (the last argument), b = 1, r = 1, the caller's local x is intact *)
+Theorem C08_example_call_binding :
+  forall F bld, VmCallLink.run_example F bld VmCallLink.ex_bind_module =
+    Some (Vm.OOk, [Some (Vm.VInt 2); Some (Vm.VInt 1); Some (Vm.VInt 1); Some (Vm.VInt 7)], []).
+Proof. exact VmCallLink.ex_call_binding. Qed.
+Print Assumptions C08_example_call_binding.
+
+(* g() = [];  main = [r := g()]: a function that ends without Return yields nil *)
+Theorem C08_example_call_nil :
+  forall F bld, VmCallLink.run_example F bld VmCallLink.ex_nil_module = Some (Vm.OOk, [None; None; Some Vm.VNil; None], []).
+Proof. exact VmCallLink.ex_call_nil. Qed.
+Print Assumptions C08_example_call_nil.
+
+(* main = [x := 7; r := f(5, 1, 2); gx := x]: the callee sees the last two arguments; the surplus 5 is still on
+   the caller's stack after the call (one value is left on the stack when the run ends) *)
+Theorem C08_example_call_surplus :
+  forall F bld, VmCallLink.run_example F bld VmCallLink.ex_surplus_module =
+    Some (Vm.OOk, [Some (Vm.VInt 2); Some (Vm.VInt 1); Some (Vm.VInt 1); Some (Vm.VInt 7)], [Vm.VInt 7]).
+Proof. exact VmCallLink.ex_call_surplus. Qed.
+Print Assumptions C08_example_call_surplus.
+
+(* h(a) = [ga := a; a := 99; return 5];  main = [x := 7; r := h(); gx := x] - one argument too few while the
+   caller has one slot on the stack: no MissingArgument; h's parameter a IS main's local x (ga = 7) and after the
+   Return main's local is gone (gx = nil).  The card-level reference semantics (C01, RefSem) leaves a call with
+   fewer arguments than parameters unspecified (code 3); the VM gives it this meaning. *)
+Theorem C08_example_short_call :
+  forall F bld, VmCallLink.run_example F bld VmCallLink.ex_short_module =
+    Some (Vm.OOk, [Some (Vm.VInt 7); None; Some (Vm.VInt 5); Some Vm.VNil], []).
+Proof. exact VmCallLink.ex_short_call. Qed.
+Print Assumptions C08_example_short_call.
+
+(* h(a) = [];  main = [r := h()]: fewer than arity values on the whole stack -> MissingArgument *)
+Theorem C08_example_missing_argument :
+  forall F bld, exists tr, VmCallLink.run_example F bld VmCallLink.ex_missing_module =
+    Some (Vm.OErr Vm.EMissingArgument tr, [None; None; None; None], []).
+Proof. exact VmCallLink.ex_missing_argument. Qed.
+Print Assumptions C08_example_missing_argument.
+
+(* main = [r := main()]: N-C08-3 at run time *)
+Theorem C08_example_call_main_not_found :
+  forall F bld, exists tr, VmCallLink.run_example F bld VmCallLink.ex_callmain_module =
+    Some (Vm.OErr (Vm.EProcedureNotFound (handle_from_u64 0)) tr, [None; None; None; None], []).
+Proof. exact VmCallLink.ex_call_main_not_found. Qed.
+Print Assumptions C08_example_call_main_not_found.
+
+(* the static side of the first example: hypotheses of C08_call_executes_designated_body, the site's target, the
+   pair at bytes 32 / 41, labels[Handle(1)] = 59 = the first instruction of f: ReadLocalVar 1 = parameter a *)
+Theorem C08_example_call_static :
+  module_names_dotfree (with_std std_module VmCallLink.ex_bind_module) = true /\
+  label_keys_distinct_module VmCallLink.ex_bind_module 64 = true /\
+  spec_resolve (with_std std_module VmCallLink.ex_bind_module) [] [] VmCallLink.x_f = SFound ([], VmCallLink.x_f) /\
+  fn_position (with_std std_module VmCallLink.ex_bind_module) [] VmCallLink.x_f 0 = Some 1%nat /\
+  exists B, compile VmCallLink.ex_bind_module default_options = COk B /\
+    nm_find (handle_from_u64 1) (p_labels B) = Some 59%N /\
+    match decode (p_bytecode B) with
+    | Some l => In (32%nat, IFunctionPointer (handle_from_u64 1) 2) l /\ In (41%nat, ICallFunction) l /\
+                In (59%nat, IReadLocalVar 1) l
+    | None => False
+    end.
+Proof. exact VmCallLink.ex_bind_static. Qed.
+Print Assumptions C08_example_call_static.
